@@ -36,6 +36,7 @@ def run(prog, R, tier="quick", only_rule=None):
     # full vs partitioned filter: same hash, same probe sequence, and a partition index that never hides a partition
     from rules.props import c12
     c12.c12a(prog, R, rid="C11.e")
+    c12.c12i(prog, R, rid="C11.f")
 
 
 def tuple_of(h, into_only=True):
